@@ -521,7 +521,11 @@ func vfParent(rt *rapid.T, c *vfChain) {
 	tk := c.tokens
 	child := c.err
 	var kind, descr string
-	switch k := rapid.SampledFrom(vfParentSlots).Draw(rt, "parentKind"); k {
+	k := vfForcedParent
+	if k == "" {
+		k = rapid.SampledFrom(vfParentSlots).Draw(rt, "parentKind")
+	}
+	switch k {
 	case vfKOp:
 		oe := &net.OpError{Op: rapid.SampledFrom(vfOps).Draw(rt, "op"), Net: rapid.SampledFrom(vfNets).Draw(rt, "net"), Err: child}
 		d := "OpError{" + oe.Op + " " + oe.Net
@@ -581,9 +585,21 @@ func vfParent(rt *rapid.T, c *vfChain) {
 	c.descr = append([]string{descr}, c.descr...)
 }
 
+// vfForcedParent: when set, every parent of the chain under construction is of this kind (a chain of one
+// wrapper type nested many times: dialers wrapping dialers).
+var vfForcedParent string
+
 func vfGenChain(rt *rapid.T) *vfChain {
 	c := &vfChain{tokens: &vfTokens{}}
 	depth := rapid.IntRange(1, 5).Draw(rt, "depth")
+	// one chain in five is deep (up to 12 nodes), and half of those nest ONE kind of wrapper
+	if rapid.IntRange(0, 4).Draw(rt, "deep") == 0 {
+		depth = rapid.IntRange(6, 12).Draw(rt, "deepDepth")
+		if rapid.Bool().Draw(rt, "uniformParents") {
+			vfForcedParent = rapid.SampledFrom(vfParentSlots).Draw(rt, "uniformParentKind")
+			defer func() { vfForcedParent = "" }()
+		}
+	}
 	vfLeaf(rt, c)
 	for i := 1; i < depth; i++ {
 		vfParent(rt, c)
@@ -736,12 +752,13 @@ func vfURLClasses(unit string, forms []string) []string {
 // TestVerifC20Tree: generated error chains.
 func TestVerifC20Tree(t *testing.T) {
 	c := ev.For("C20")
-	c.Rule("tree: error chain of depth 1..5, leaf in {AddrError, DNSError (plain cause / cause embedding the resolver's socket error / go1.23 UnwrapErr), InvalidAddrError and UnknownNetworkError in value and pointer form whose text is a secret (host:port, bare host / IPv4 / IPv6, tcp://host:port, upper-case - what arrives when Dial's arguments are swapped; UnknownNetworkError now and then a plain network name), ParseError{Type, Text: secret}, Errno, sentinel}, parents in {OpError with Source/Addr (Net now and then the swapped-in address), url.Error (Op from 9 values; URL text in 15 syntactic forms around secrets: absolute with/without port, user info / path / query holding a secret, IPv6 literal, scheme-less name:port and name:port/path, scheme-less ip:port, //host:port/path, bare host, opaque, percent-encoded, upper-case, trailing dot, unparseable), SyscallError, Errorf(%w), DNSError wrapping its child}; secrets = host names over the alphabet '" + vfSecretAlphabet + "' (5..10 letters per label), IPv4/IPv6 literals, DNS server host parts; each chain is evaluated with scrubbing on (no secret — whole host name, single label, IP literal — may occur in the output, compared case-insensitively) and with unsafe logging (output == err.Error()); non-trivial = depth >= 2 with an address-bearing node below an OpError; fingerprint = chain shape + secrets")
+	c.Rule("tree: error chain of depth 1..5 (one in five: 6..12, half of those nesting one kind of wrapper throughout), leaf in {AddrError, DNSError (plain cause / cause embedding the resolver's socket error / go1.23 UnwrapErr), InvalidAddrError and UnknownNetworkError in value and pointer form whose text is a secret (host:port, bare host / IPv4 / IPv6, tcp://host:port, upper-case - what arrives when Dial's arguments are swapped; UnknownNetworkError now and then a plain network name), ParseError{Type, Text: secret}, Errno, sentinel}, parents in {OpError with Source/Addr (Net now and then the swapped-in address), url.Error (Op from 9 values; URL text in 15 syntactic forms around secrets: absolute with/without port, user info / path / query holding a secret, IPv6 literal, scheme-less name:port and name:port/path, scheme-less ip:port, //host:port/path, bare host, opaque, percent-encoded, upper-case, trailing dot, unparseable), SyscallError, Errorf(%w), DNSError wrapping its child}; secrets = host names over the alphabet '" + vfSecretAlphabet + "' (5..10 letters per label), IPv4/IPv6 literals, DNS server host parts; each chain is evaluated with scrubbing on (no secret — whole host name, single label, IP literal — may occur in the output, compared case-insensitively) and with unsafe logging (output == err.Error()); non-trivial = depth >= 2 with an address-bearing node below an OpError; fingerprint = chain shape + secrets")
 	c.Assume("strings.Contains over the generated secrets decides a leak; secrets use an alphabet disjoint from every operation/cause word, so a hit cannot be a coincidence")
 	c.Assume("error texts put into plain sentinel leaves and Errorf wrappers are the transport author's own and carry no address (ElideError passes non-network errors through by design)")
 	c.Floor("tree-nontrivial/tree", 0.20)
 	c.Floor("tree-dns-embedded/tree", 0.05)
 	c.Floor("tree-depth>=4/tree", 0.15)
+	c.Floor("tree-depth>=6/tree", 0.08)
 	c.Floor("tree-url.Error/tree", 0.15)
 	// url.Error with a scheme-less name:port[/path] URL (net/url reads the host name as the scheme)
 	c.Floor("tree-"+vfURLSchemelessName+"/tree", 0.02)
@@ -767,6 +784,9 @@ func TestVerifC20Tree(t *testing.T) {
 		}
 		if ch.embedded {
 			cls = append(cls, "tree-dns-embedded")
+		}
+		if depth >= 6 {
+			cls = append(cls, "tree-depth>=6")
 		}
 		if depth >= 4 {
 			cls = append(cls, "tree-depth>=4")
